@@ -389,6 +389,28 @@ fn point_events(tr: &mut Tr, name: &str, eos: &Arc<M>, calibrated: bool, t: Temp
         }
 }
 
+/// The eigenvector u of the smallest eigenvalue of the scaled Hessian M_ij = delta_ij + sqrt(n_i n_j) (dmu_i/dn_j)_res / T of a binary state, and the four
+/// states at n_i + k eps u_i sqrt(n_i), k = -2, -1, 1, 2 (same T and V): the stencil of the second criticality condition.
+fn crit_probe(eos: &Arc<M>, s: &State<M>) -> (Vec<f64>, f64, Vec<Value>) {
+    let h = r2(s.dmu_dni(Contributions::Residual));
+    let t = s.temperature.to_reduced();
+    let n = s.moles.to_reduced();
+    let m = |i: usize, j: usize| (if i == j { 1.0 } else { 0.0 }) + (n[i] * n[j]).sqrt() * h[(i, j)] / t;
+    let (a, b, d) = (m(0, 0), m(0, 1), m(1, 1));
+    let lam = 0.5 * (a + d) - (0.25 * (a - d) * (a - d) + b * b).sqrt();
+    let (mut u0, mut u1) = (b, lam - a);
+    if u0.abs() + u1.abs() < 1e-12 { u0 = lam - d; u1 = b; }
+    let nu = (u0 * u0 + u1 * u1).sqrt();
+    let (u0, u1) = (u0 / nu, u1 / nu);
+    let eps = 1e-3;
+    let mut nb = vec![];
+    for k in [-2.0f64, -1.0, 1.0, 2.0] {
+        let nn = arr1(&[n[0] + k * eps * u0 * n[0].sqrt(), n[1] + k * eps * u1 * n[1].sqrt()]);
+        if let Ok(s2) = State::new_nvt(eos, s.temperature, s.volume, &Moles::from_reduced(nn)) { nb.push(phase(&s2)); }
+    }
+    (vec![u0, u1], eps, nb)
+}
+
 fn mixture_events(tr: &mut Tr, args: &Args, rng: &mut Rng) {
     let mut systems = hydrocarbon_pairs(args, rng);
     // other families: conditions whenever Ok (not part of the success clause)
@@ -429,30 +451,33 @@ fn mixture_events(tr: &mut Tr, args: &Args, rng: &mut Rng) {
             if let Ok(s) = &r {
                 ev["state"] = phase(s);
                 // neighbours along the eigenvector of the scaled Hessian, for the second criticality condition
-                let h = r2(s.dmu_dni(Contributions::Residual));
-                let t = s.temperature.to_reduced();
-                let n = s.moles.to_reduced();
-                let m = |i: usize, j: usize| (if i == j { 1.0 } else { 0.0 }) + (n[i] * n[j]).sqrt() * h[(i, j)] / t;
-                let (a, b, d) = (m(0, 0), m(0, 1), m(1, 1));
-                let lam = 0.5 * (a + d) - (0.25 * (a - d) * (a - d) + b * b).sqrt();
-                let (mut u0, mut u1) = (b, lam - a);
-                if u0.abs() + u1.abs() < 1e-12 { u0 = lam - d; u1 = b; }
-                let nu = (u0 * u0 + u1 * u1).sqrt();
-                let (u0, u1) = (u0 / nu, u1 / nu);
-                let eps = 1e-3;
-                let mut nb = vec![];
-                for k in [-2.0f64, -1.0, 1.0, 2.0] {
-                    let nn = arr1(&[n[0] + k * eps * u0 * n[0].sqrt(), n[1] + k * eps * u1 * n[1].sqrt()]);
-                    if let Ok(s2) = State::new_nvt(&eos, s.temperature, s.volume, &Moles::from_reduced(nn)) { nb.push(phase(&s2)); }
-                }
-                ev["u"] = fv([u0, u1].iter());
+                let (u, eps, nb) = crit_probe(&eos, s);
+                ev["u"] = fv(u.iter());
                 ev["eps"] = fs(eps);
                 ev["neighbours"] = Value::Array(nb);
                 // given T and given p
                 let rt = g(|| State::critical_point_binary(&eos, s.temperature, None, Some([x1, 1.0 - x1]), opts()));
                 let rp = g(|| State::critical_point_binary(&eos, s.pressure(CT), Some(s.temperature * 0.95), Some([x1, 1.0 - x1]), opts()));
-                ev["at_T"] = match &rt { Ok(q) => json!({"ok": true, "state": phase(q)}), Err(e) => json!({"ok": false, "err": err_name(e)}) };
-                ev["at_p"] = match &rp { Ok(q) => json!({"ok": true, "state": phase(q)}), Err(e) => json!({"ok": false, "err": err_name(e)}) };
+                // a critical point returned for a given T or p is a critical point: the same probe along its own eigenvector
+                let with_probe = |r: &Result<State<M>, EosError>| match r {
+                    Ok(q) => { let (u, eps, nb) = crit_probe(&eos, q); json!({"ok": true, "state": phase(q), "u": fv(u.iter()), "eps": fs(eps), "neighbours": nb}) }
+                    Err(e) => json!({"ok": false, "err": err_name(e)}),
+                };
+                ev["at_T"] = with_probe(&rt);
+                ev["at_p"] = with_probe(&rp);
+                // more critical points at given pressure, away from the composition above (the pressure of the critical point at x1 = 0.2, 0.7)
+                let mut more = vec![];
+                for xq in [0.2, 0.7] {
+                    let mq = Moles::from_reduced(arr1(&[xq, 1.0 - xq]));
+                    if let Ok(sq) = g(|| State::critical_point(&eos, Some(&mq), None, opts())) {
+                        let rq = g(|| State::critical_point_binary(&eos, sq.pressure(CT), Some(sq.temperature * 0.97), Some([xq, 1.0 - xq]), opts()));
+                        let mut w = with_probe(&rq);
+                        w["p_spec"] = fs(sq.pressure(CT).to_reduced());
+                        w["x_ref"] = fs(xq);
+                        more.push(w);
+                    }
+                }
+                ev["at_p_more"] = Value::Array(more);
             } else {
                 ev["err"] = json!(err_name(r.as_ref().err().unwrap()));
             }
@@ -526,6 +551,32 @@ fn ternary_events(tr: &mut Tr, args: &Args, _rng: &mut Rng) {
             for z in &comps {
                 let t = Temperature::from_reduced(tc_lo * tf);
                 point_events(tr, &name, &eos, false, t, arr1(&z[..]), &format!("T/Tc={},z=({:.2},{:.2},{:.2})", tf, z[0], z[1], z[2]));
+            }
+        }
+    }
+}
+
+// ------------------------------------------------------------------------------------------------ flash with non-volatile components
+/// ePC-SAFT water + Na+ + Cl-: Tp flash with the ions declared non-volatile, started from (pure water vapor, feed liquid). The library finds a split only
+/// in a narrow band below the vapor pressure of water; every returned result is judged (no success clause): ions absent from the vapor, isofugacity of water,
+/// material balance, specification kept.
+fn nonvolatile_events(tr: &mut Tr, args: &Args, _rng: &mut Rng) {
+    let Some(m) = zoo::zoo(false).into_iter().find(|m| m.name == "epcsaft/water+NaCl") else { return };
+    let eos = m.eos.clone();
+    let temps: Vec<f64> = if args.thorough { vec![333.15, 353.15, 373.15, 393.15, 423.15] } else { vec![353.15, 393.15] };
+    for tk in temps {
+        let t = Temperature::from_reduced(tk);
+        let Some(Some(psat)) = PhaseEquilibrium::vapor_pressure(&eos, t).first().cloned() else { continue };
+        for xs in [0.005, 0.01, 0.03] {
+            let z = arr1(&[1.0 - 2.0 * xs, xs, xs]);
+            let feed = Moles::from_reduced(&z * 2.0);
+            for f in [0.7, 0.8, 0.85, 0.9, 0.93, 0.96, 0.98, 0.995] {
+                let p = psat * f;
+                let init = g(|| PhaseEquilibrium::new_npt(&eos, t, p, &Moles::from_reduced(arr1(&[1.0, 1e-10, 1e-10])), &Moles::from_reduced(z.clone())));
+                let Ok(init) = init else { continue };
+                let r = g(|| PhaseEquilibrium::tp_flash(&eos, t, p, &feed, Some(&init), opts(), Some(vec![1, 2])));
+                tr.ev(json!({"ev":"FlashNvc","case":"epcsaft/water+NaCl","T":fs(tk),"p":fs(p.to_reduced()),"feed":fv(feed.to_reduced().iter()),"nonvolatile":[2, 3],
+                    "grid":format!("x_salt={},p/psat={}", xs, f),"res":eq2(&r)}));
             }
         }
     }
@@ -616,6 +667,7 @@ pub fn run(args: &Args) {
     if which == "all" || which == "mix" {
         mixture_events(&mut tr, args, &mut rng);
         ternary_events(&mut tr, args, &mut rng);
+        nonvolatile_events(&mut tr, args, &mut rng);
     }
     if which == "all" || which == "mix" || which == "lle" {
         lle_events(&mut tr, args, &mut rng);
